@@ -705,7 +705,8 @@ func genJoin(r *rng, depth int) string {
 			right += " | " + p
 		}
 		cond := pick(r, []string{"a", "k", "$left.a == $right.a", "$left.a == $right.b", "a, b", "a, $left.b < $right.b", "$left.a == $right.a and $left.b != $right.b",
-			"($left.a) == $right.a", "$left.a == $right.a, $right.b > 1", "`a`", "true", "$left.a + 1 == $right.b", "tolower($left.a) == $right.b", "$left.a =~ $right.a"})
+			"($left.a) == $right.a", "$left.a == $right.a, $right.b > 1", "`a`", "true", "$left.a + 1 == $right.b", "tolower($left.a) == $right.b", "$left.a =~ $right.a",
+			"a, b, $left.k < $right.k", "k, a, b, c", "$left.a == $right.a, $left.b == $right.b, $left.c == $right.c", "a, not($left.b == $left.c), b"})
 		left += " | join " + kind + "(" + right + ") on " + cond
 		if p := genPipeline(r, 2); p != "" && r.chance(1, 2) {
 			left += " | " + p
